@@ -85,8 +85,8 @@ def run(prog, rep, tier, cfg):
     X.callers('K5', 'power set_claim', lambda c: callee_is('state::set_claim')(c) and c.fn.crate == PW, ['state::State::add_to_claim', 'Actor::create_miner'])
     AC = X.fn('state::State::add_to_claim', PW)
     sc = [c.bb for c in AC.calls if callee_is('state::set_claim')(c)]
-    X.guard('K6b', 'power:raw-non-negative', AC, sc, m_pred('is_negative', ['F:Claim.raw_byte_power'], False), 'negative raw power => Err')
-    X.guard('K6b', 'power:qa-non-negative', AC, sc, m_pred('is_negative', ['F:Claim.quality_adj_power'], False), 'negative qa power => Err')
+    X.guard('K6b', 'power:raw-non-negative', AC, sc, m_pred('is_negative', [], False, direct='Claim.raw_byte_power'), 'negative raw power => Err')
+    X.guard('K6b', 'power:qa-non-negative', AC, sc, m_pred('is_negative', [], False, direct='Claim.quality_adj_power'), 'negative qa power => Err')
     X.guard('K6b', 'power:count-non-negative', AC, sc, m_rel('lt', ['F:State.miner_above_min_power_count'], ['V:0'], False), 'negative above-minimum count => Err')
     X.value_from('K10', 'power:new-raw', AC, X.agg_field_atoms(AC, 'Claim', 'raw_byte_power'), ['F:Claim.raw_byte_power', 'P:5', 'C:::add'], 'new raw = old raw + delta', forbid=['P:6'])
     X.value_from('K10', 'power:new-qa', AC, X.agg_field_atoms(AC, 'Claim', 'quality_adj_power'), ['F:Claim.quality_adj_power', 'P:6', 'C:::add'], 'new qa = old qa + delta', forbid=['P:5'])
